@@ -136,6 +136,13 @@ def run(ctx):
         mk = [e for e in events if e.kind == 'call' and e.callee == 'io_loop::ChannelSlot::new']
         r.check('factory:slot-for-that-id', mk and all(S.show(e.args[0]) == 'self.mio_channel_bound' and S.show(e.args[1]) == '$c0' for e in mk), site, built=[S.show(e.term) for e in mk])
 
+    with ctx.rule('R10.7', "a channel's wake-ups are its own: the I/O loop's special tokens lie outside Token(0..=u16::MAX) and are pairwise distinct", floor=2) as r:
+        ok, why, vals = panics.token_values(ctx)
+        r.check('special-tokens-disjoint-from-channel-ids', ok, ctx.site('io_loop::IoLoop::handle_steady_event'), built=why, expected='STREAM, HEARTBEAT, ALLOC_CHANNEL, SET_BLOCKED_TX > 65535',
+                why='a channel is registered under Token(id as usize); a special token inside 0..=65535 makes that id unusable (its wake-ups are dispatched elsewhere, open_channel hangs)')
+        ok2, why2 = panics.token_domain(ctx)
+        r.check('token-dispatch-total', ok2, ctx.site('io_loop::IoLoop::handle_steady_event'), built=why2)
+
     def scope(p):
         return p.startswith(CSL) or p.startswith('io_loop::Inner::allocate_channel')
     panics.inventory(ctx, 'R10.6', 'no undischarged panic-capable site in the allocator and the hand-over', roots=['io_loop::Inner::allocate_channel'], scope=scope, floor_sites=1)
